@@ -110,7 +110,9 @@ var messageCache = []msgCacheInfo{
 // rather substantial benefits for performance.
 func (m *Message) Free() {
 	if m != nil {
+		verifLedger(verifEvFree, m, 0)
 		if atomic.AddInt32(&m.refcnt, -1) == 0 {
+			verifLedger(verifEvRelease, m, 0)
 			for i := range messageCache {
 				if m.bsize == messageCache[i].maxbody {
 					messageCache[i].pool.Put(m)
@@ -126,6 +128,7 @@ func (m *Message) Free() {
 // If a read-only copy needs to be made "unique", callers can do so by
 // using the Uniq function.
 func (m *Message) Clone() {
+	verifLedger(verifEvClone, m, 0)
 	atomic.AddInt32(&m.refcnt, 1)
 }
 
@@ -175,8 +178,10 @@ func NewMessage(sz int) *Message {
 		m = newMsg(sz)
 	}
 
+	verifLedger(verifEvReuse, m, sz)
 	m.Body = m.bbuf
 	m.Header = m.hbuf
 	atomic.StoreInt32(&m.refcnt, 1)
+	verifLedger(verifEvNew, m, sz)
 	return m
 }
